@@ -146,7 +146,8 @@ theorem mulp_spec (p : ℕ) (hp0 : 0 < p) (hp : (p : Int) < I63) (m : Mat) (v : 
   exact getD_map_zero _ (by simp [rowDot, sumSel]) m i
 
 /-- The bound matters: with `p · norm ≥ 2^63` the checked profile panics on an `i64` overflow
-(the release profile wraps and still returns the right residue when the true sum fits). -/
+(the release profile wraps silently: the real code answers 1310722 instead of `p - 65534` for this
+request, `im_mulp4 0:32767,0:32767 p,p,p,p v,v,v,v` with `p = 2^48 + 21`, `v = p - 1`). -/
 theorem mulp_overflow_witness :
     mulpLane [[(0, 32767), (0, 32767)]] 281474976710677 [281474976710676] = none := by
   decide +kernel
